@@ -380,6 +380,12 @@ class Facts:
         if fn is None:
             return None
         cache = self.__dict__.setdefault("_inl_cache", {})
+        if "_anchor_ids_done" not in self.__dict__:
+            try:
+                import enginerules
+                enginerules.ensure_anchor_ids(self)
+            except Exception:
+                self.__dict__["_anchor_ids_done"] = True
         if fn.id not in cache:
             cache[fn.id] = inline_private_helpers(self, fn)
         return cache[fn.id]
@@ -540,6 +546,8 @@ def is_private_helper(g):
         return False
     if (g.j.get("vis") or "") == "Public":
         return False
+    if hasattr(g, "facts") and g.id in getattr(g.facts, "_anchor_ids", ()):
+        return False       # found to play an anchor role by its behaviour (e.g. a renamed validator)
     return (g.j.get("method") or g.name.split("::")[-1]) not in rule_names()
 
 
@@ -572,7 +580,8 @@ def inline_private_helpers(F, fn, depth=2, max_blocks=4000):
             g = F.fns.get(cid) if cid else None
             if g is None or not g.blocks or g.id == fn.id or g.kind not in ("method", "fn"):
                 continue
-            if g.j.get("trait") or g.j.get("in_trait") or (g.j.get("method") or g.name.split("::")[-1]) in anchors:
+            if g.j.get("trait") or g.j.get("in_trait") or (g.j.get("method") or g.name.split("::")[-1]) in anchors \
+                    or g.id in getattr(F, "_anchor_ids", ()):
                 continue
             g_ty = (g.j.get("self_ty") or "").split("<")[0]
             same_type = g_ty == base_ty
